@@ -1581,6 +1581,101 @@ def check_baseline_epochs(ctx):
                  dict(wit, error=repr(e)[:300]))
 
 
+class _LocsPolicy(torch.nn.Module):
+    """stub policy for real TSP data: reward of an instance is an exact function of its own coordinates plus
+    `shift/4·(1 + parity)`; row-wise by construction; `shift` models training progress (frozen by deepcopy)"""
+    train_decode_type = "sampling"
+    val_decode_type = "greedy"
+    test_decode_type = "greedy"
+
+    def __init__(self, shift=0):
+        super().__init__()
+        self.p = torch.nn.Parameter(torch.zeros(1))
+        self.shift = shift
+
+    def value(self, locs):
+        q = (locs * 1024).round()
+        return -(q.sum(dim=(1, 2))) / 64.0 + 0.25 * self.shift * (1 + (q[:, 0, 0] % 2))
+
+    def forward(self, td, env=None, decode_type=None, **kw):
+        return {"reward": self.value(td["locs"])}
+
+
+def check_epoch_end(ctx):
+    """the REAL epoch-end hook: `REINFORCE.on_train_epoch_end` driven over several epoch boundaries (stub trainer) with the
+    warm-up + greedy rollout baseline, the candidate made clearly better (accepted) or clearly worse (rejected) before
+    each boundary.  After every boundary, for every item i of the NEW `train_dataset`: `extra[i]` = greedy reward of the
+    CURRENT `baseline.policy` (after the callback) on instance i, and the set is wrapped iff the CURRENT alpha > 0."""
+    from rl4co.envs import TSPEnv
+    from rl4co.models.rl import REINFORCE
+
+    env = TSPEnv(generator_params=dict(num_loc=5))
+    plans = [(1, [+2, -3, +5, +2]), (2, [+1, +2, -4, +6]), (1, [-1, +3, +1, -2]), (3, [+2, +2, +2, -1])]
+    if ctx.tier != "thorough" and not ctx.searching:
+        plans = plans[:3]
+    for n_warm, deltas in plans:
+        torch.manual_seed(ctx.rng.randrange(1 << 30))
+        pol = _LocsPolicy(0)
+        tsize, vsize = ctx.rng.choice([7, 11]), ctx.rng.choice([9, 13])
+        model = REINFORCE(env, pol, baseline="rollout", baseline_kwargs={"n_epochs": n_warm}, batch_size=4,
+                          val_batch_size=ctx.rng.choice([4, 5]), train_data_size=tsize, val_data_size=vsize, test_data_size=3)
+        model.setup()
+        trainer = types.SimpleNamespace(max_epochs=10, current_epoch=0, loggers=[], strategy=None)
+        model._trainer = trainer
+        warm, roll = model.baseline, model.baseline.baseline
+        want_shift = roll.policy.shift
+        for epoch, d in enumerate(deltas):
+            pol.shift += d  # "training" during the epoch
+            trainer.current_epoch = epoch
+            accept = pol.shift > want_shift
+            try:
+                model.on_train_epoch_end()
+            except Exception as e:  # noqa: BLE001
+                viol(ctx, "epoch-end:raised", "REINFORCE.on_train_epoch_end raised", {"epoch": epoch, "error": repr(e)[:300]})
+                break
+            want_shift = pol.shift if accept else want_shift
+            want_alpha = min(1.0, (epoch + 1) / n_warm) if epoch < n_warm else 1.0
+            wit = {"warmup_epochs": n_warm, "epoch": epoch, "live_shift": pol.shift, "candidate_accepted": accept,
+                   "baseline_shift_after": roll.policy.shift, "alpha_after": float(warm.alpha), "train_size": tsize, "val_size": vsize}
+            if roll.policy.shift != want_shift or abs(float(warm.alpha) - want_alpha) > 1e-9:
+                ctx.disagreement("epoch boundary: baseline policy / alpha after the callback",
+                                 dict(wit, model_shift=want_shift, model_alpha=want_alpha))
+            ds = model.train_dataset
+            items = [ds[i] for i in range(len(ds))]
+            wrapped = [("extra" in it) for it in items]
+            ctx.count("epoch_end." + ("accept" if accept else "reject") + (".warmup" if warm.alpha < 1 else ""))
+            ctx.case(("epoch_end", n_warm, epoch, tuple(deltas)), nontrivial=True)
+            if warm.alpha > 0:
+                if not all(wrapped):
+                    viol(ctx, "epoch-end:not-wrapped-by-current-alpha", "after the epoch boundary alpha > 0 but the new training set "
+                         "carries no baseline values (it was wrapped before the callback advanced alpha)", wit)
+                    continue
+                locs = torch.stack([it["locs"] for it in items])
+                got = torch.stack([it["extra"] for it in items])
+                exp = roll.policy.value(locs)
+                bad = (got != exp).nonzero().flatten().tolist()
+                if bad:
+                    i = bad[0]
+                    viol(ctx, "epoch-end:extra-not-current-baseline",
+                         "after the epoch boundary the value attached to item i of the NEW training set is not the greedy reward of "
+                         "the CURRENT baseline policy on instance i", dict(wit, item=i, attached=float(got[i]), expected=float(exp[i]),
+                                                                           n_bad=len(bad)))
+                # and through the module's own loader, shuffled
+                seen = 0
+                for b in model.train_dataloader():
+                    e2 = roll.policy.value(b["locs"])
+                    if not torch.equal(b["extra"], e2):
+                        viol(ctx, "epoch-end:extra-not-current-baseline", "a training batch carries baseline values that are not the "
+                             "current baseline policy's rewards of its own instances", wit)
+                        break
+                    seen += b.batch_size[0]
+                if seen not in (0, len(items)) and not bad:
+                    ctx.disagreement("train_dataloader size", {"seen": seen, "n": len(items)})
+            elif any(wrapped):
+                viol(ctx, "epoch-end:wrapped-during-warmup", "alpha = 0 but the training set carries rollout-baseline values", wit)
+    ctx.sample({"what": "REINFORCE.on_train_epoch_end history", "plans": plans[:2]})
+
+
 def check_eval_call(ctx):
     """tasks/eval.py:EvalBase.__call__ — concatenation of per-batch rewards and zero-padded actions over a loader
     with a final partial batch"""
@@ -1632,6 +1727,7 @@ def run_c17(ctx):
     check_histories(ctx)
     check_index_batches(ctx)
     check_baseline_epochs(ctx)
+    check_epoch_end(ctx)
     check_eval_call(ctx)
 
 
@@ -1644,7 +1740,7 @@ NOTE_S = ("feasibility of a forced start is a statement about the environment's 
           "(`starts_prefix`: instance b is forced to lo, lo+1, …, lo+k-1), the mask part is the env families' reset lemma; the "
           "harness evaluates the real reset masks of the bundled generators")
 NOTE_PD = ("translator tie (C17): `Params.dsExtraWriteUnconditional`, `dsExtraIndexShift`, `dsFastTdDirect`, `dsFastGenDirect`, "
-           "`dsCollateInOrder`, `dsInitRowsInOrder`, `blRolloutPlainConcat`, `blRolloutLoaderPlain`, `loaderShufflePassthrough`, `evalCatInOrder`, `evalPadLeft` "
+           "`dsCollateInOrder`, `dsInitRowsInOrder`, `blRolloutPlainConcat`, `blRolloutLoaderPlain`, `loaderShufflePassthrough`, `rfCallbackBeforeSuper`, `evalCatInOrder`, `evalPadLeft` "
            "are regenerated from the sources and unfolded by the C17 proofs (a guarded write, a `__getitems__` fast path or a "
            "buffer-offset rollout breaks `readExtra_eq` / `fetch_eq` / `rollout_aligned` at build)")
 NOTE_D = ("DataLoader's sampler (sequential / permutation) and batch sampler are modelled as `chunks` of an index order "
@@ -1774,6 +1870,11 @@ C17_THEOREMS = [
     T("Rl4co.Ops.eval_call_aligned", "proved", "EvalBase.__call__: rewards[i] / actions[i] are instance i's, actions right-padded with zeros to the common length, any batching"),
     T("Rl4co.Ops.eval_call_roundtrip", "proved", "… over a sequential loader: one reward per instance of the data set in order"),
     T("Rl4co.Ops.padRow_eq", "proved", "pad(action, (0, L - len)) appends zeros only"),
+    T("Rl4co.Ops.blWrap_eq", "proved", "WarmupBaseline.wrap_dataset with a row-wise baseline policy attaches g(policy, x), or nothing while alpha = 0"),
+    T("Rl4co.Ops.epoch_end_wrap_uses_updated_baseline", "proved", "REINFORCE.on_train_epoch_end (extracted order: callback, then reset): the new training set carries the rewards of the baseline policy AFTER the callback and is wrapped iff the alpha AFTER the callback is > 0"),
+    T("Rl4co.Ops.epoch_end_swapped_counterexample", "proved", "NOT the same claim for the swapped order (reset before callback)"),
+    T("Rl4co.Ops.epoch_end_swapped_is_stale", "proved", "with the swapped order the attached values are those of the PRE-update baseline"),
+    T("Rl4co.Ops.runEpochs_current", "proved", "after ANY sequence of epoch boundaries the current training set is the one wrapped by the CURRENT baseline state"),
     T("Rl4co.Ops.rewrap_current", "proved", "shared list-of-dicts items: after ANY history, a read through a wrapper returns the current wrapper's value, other entries untouched"),
     T("Rl4co.Ops.readMany_current", "proved", "the same for a whole pass over any index list (any order, repetitions) from any store"),
 ]
